@@ -87,7 +87,9 @@ pub fn lit_value(rng: &mut Rng, w: WidthInt) -> BitVecValue {
 
 /// A shift amount of width `w`: below / at / above the width, >= 2^32, >= 2^64 where representable.
 pub fn shift_amount(rng: &mut Rng, w: WidthInt) -> BitVecValue {
-    let choice = rng.below(8);
+    // values of three and more words: every second amount is a whole-word shift (192, 320, .. are the amounts that are
+    // multiples of 64 without being powers of two; seeded change C06-m7)
+    let choice = if w > 129 && rng.chance(1, 2) { 6 } else { rng.below(8) };
     let small = |v: u64| -> Option<BitVecValue> {
         if w >= 64 || v < (1u64 << w) { Some(BitVecValue::from_u64(v, w)) } else { None }
     };
